@@ -543,7 +543,7 @@ func (a *Adapter) drain(ctx sdk.Context) (out string) {
 	sk := a.W.App.StakingKeeper
 	for _, d := range a.C.Delegator {
 		for _, v := range a.C.Validator {
-			del, err := sk.GetDelegation(c, a.acc(d), a.val[v])
+			_, err := sk.GetDelegation(c, a.acc(d), a.val[v])
 			if err != nil {
 				continue
 			}
@@ -551,18 +551,26 @@ func (a *Adapter) drain(ctx sdk.Context) (out string) {
 			if !a.call(c, d, data, err) {
 				return "withdraw " + d + " " + v
 			}
-			val, err := sk.GetValidator(c, a.val[v])
-			must(err)
-			tokens := val.TokensFromShares(del.Shares).TruncateInt()
-			if !tokens.IsPositive() {
-				continue
-			}
-			data, err = precompile.NewUndelegateV2Method(nil).PackInput(fxstakingtypes.UndelegateV2Args{Validator: a.val[v].String(), Amount: tokens.BigInt()})
-			if !a.call(c, d, data, err) {
-				return "undelegate " + d + " " + v
-			}
-			if left, err := sk.GetDelegation(c, a.acc(d), a.val[v]); err == nil && val.TokensFromShares(left.Shares).TruncateInt().IsPositive() {
-				return "leftover " + d + " " + v
+			// undelegate what the delegation is worth, in whole base tokens; the SDK's decimal rounding can leave a
+			// remainder worth another token, so repeat (bounded) until less than one base token is left
+			for round := 0; ; round++ {
+				left, err := sk.GetDelegation(c, a.acc(d), a.val[v])
+				if err != nil {
+					break
+				}
+				val, err := sk.GetValidator(c, a.val[v])
+				must(err)
+				tokens := val.TokensFromShares(left.Shares).TruncateInt()
+				if !tokens.IsPositive() {
+					break
+				}
+				if round == 3 {
+					return "leftover " + d + " " + v
+				}
+				data, err = precompile.NewUndelegateV2Method(nil).PackInput(fxstakingtypes.UndelegateV2Args{Validator: a.val[v].String(), Amount: tokens.BigInt()})
+				if !a.call(c, d, data, err) {
+					return "undelegate " + d + " " + v
+				}
 			}
 		}
 	}
